@@ -103,6 +103,46 @@ def install():
 
     F.__str__, F.__format__, F.__repr__ = f_str, f_fmt, f_repr
 
+    # ---- E-PATCH2: CrossHair 0.0.110 computes len(other) of a *sliced* symbolic string outside tracing in
+    # `concrete_str.__contains__(symbolic)` and crashes ("Numeric operation on symbolic while not tracing").
+    import z3
+    from crosshair.core import realize
+    from crosshair.libimpl import builtinslib as _bl
+
+    def _str_contains(self, other):
+        with NoTracing():
+            if not isinstance(self, str):
+                raise TypeError
+            if not isinstance(other, AnySymbolicStr):
+                return self.__contains__(other)
+            with ResumedTracing():
+                n = other.__len__()
+                other_codepoints = [ord(c) for c in other]
+            len_to_find = realize(n)
+            my_codepoints = [ord(c) for c in self]
+            num_options = len(self) + 1 - len_to_find
+            if num_options <= 0:
+                return False
+            other_codepoints = list(map(SymbolicInt._coerce_to_smt_sort, other_codepoints))
+            codepoint_options = [my_codepoints[i:i + len_to_find] for i in range(num_options)]
+            conjunctions = [z3.And(*(cp1 == cp2 for (cp1, cp2) in zip(other_codepoints, cps))) if cps else z3.BoolVal(True)
+                            for cps in codepoint_options]
+            return _bl.SymbolicBool(z3.Or(*conjunctions))
+
+    core._PATCH_REGISTRATIONS[str.__contains__] = _str_contains
+
+    # ---- E-PATCH3: ord() of a sliced symbolic string indexes its code points outside tracing (same crash)
+    def _ord(c):
+        if len(c) != 1:
+            raise TypeError
+        with NoTracing():
+            lazy = isinstance(c, _bl.LazyIntSymbolicStr)
+        if lazy:
+            return c._codepoints[0]  # indexing under tracing
+        return ord(realize(c))
+
+    core._PATCH_REGISTRATIONS[ord] = _ord
+
     # ---- E-PATCH
     def _seq_eq(self, other):
         try:
